@@ -400,12 +400,12 @@ class BaseWorklist(list):
         else:
             exclude_str = ""
 
-        src_args = (src_rack_label, 1, volume, "", Tip.Any, src_rack_id, "", src_rack_type, "")
+        src_args = (src_rack_label, 1, volume, liquid_class, Tip.Any, src_rack_id, "", src_rack_type, "")
         (
             src_rack_label,
             _,
             _,
-            _,
+            liquid_class,
             _,
             src_rack_id,
             _,
